@@ -29,15 +29,12 @@ def sig_fake_alt_negative(desc, events, inv):
 
 
 def sig_origin_split_later(desc, events, inv):
-    """F-C15-4: a train with two origin or two destination links. The backward pass of update_times aligns the
-    branches of a split at their join (or at the common end node), so when the PRIMARY branch is the slower one the
-    Fake node that opens the alternate branch is scheduled later than the split it hangs off (alternate edges have
-    duration 0). With a single origin and destination the primary branch is always the fastest and this cannot
-    happen. In the class: only alternate edges into a Fake child, only in scenarios with a two-origin / two-destination
-    train; any primary edge or any other scenario is still a violation."""
+    """F-C15-4: the backward pass of update_times aligns the branches of a split at their join (or at the common end
+    node), so when the branch entered through the ALTERNATE edge is the faster one the Fake node that opens it is
+    scheduled later than the split it hangs off, although alternate edges have duration 0 (seen with two origin /
+    destination links, and with sidings whose primary track has the lower speed limit). In the class: only alternate
+    edges into a Fake child; a primary edge, or an alternate edge into a real node, is still a violation."""
     if inv != "NoLater":
-        return False
-    if not any(t.get("bo", 0) >= 2 or t.get("bd", 0) >= 2 for t in desc.get("trains", [])):
         return False
     nets = [e for e in events if e.get("ev") == "Net"]
     if not nets:
@@ -123,12 +120,14 @@ GROUP = dict(
     model_spec="MCDispatch.tla", trace_spec="DispatchTrace.tla", trace_cfg="DispatchTrace.cfg",
     models={
         "quick": [_M("MCDispatch_n1_2.cfg"), _M("MCDispatch_n1_3.cfg"), _M("MCDispatch_n0_3.cfg", may_be_zero=("Reroute",)),
-                  _M("MCDispatch_n2_2.cfg"), _M("MCDispatch_live.cfg", coverage=False),
+                  _M("MCDispatch_n2_2.cfg"), _M("MCDispatch_nl_3.cfg", may_be_zero=("Reroute",)),
+                  _M("MCDispatch_live.cfg", coverage=False),
                   dict(cfg="MCDispatchScen_2.cfg", spec="MCDispatchScen.tla", emit=True, max_emit=150, coverage=False)],
         "thorough": [_M("MCDispatch_n1_2.cfg"), _M("MCDispatch_n1_3.cfg"), _M("MCDispatch_n1_3tie.cfg"),
                      _M("MCDispatch_n1_3same.cfg"), _M("MCDispatch_n1_eew.cfg"), _M("MCDispatch_n0_3.cfg", may_be_zero=("Reroute",)),
                      _M("MCDispatch_n2_2.cfg"), _M("MCDispatch_n2_3.cfg", workers=16, timeout=1800),
                      _M("MCDispatch_n1_4.cfg", workers=16, timeout=1800),
+                     _M("MCDispatch_nl_3.cfg", may_be_zero=("Reroute",)), _M("MCDispatch_nl_live.cfg", coverage=False),
                      _M("MCDispatch_live.cfg", coverage=False), _M("MCDispatch_live3.cfg", coverage=False, timeout=1800),
                      dict(cfg="MCDispatchScen_3.cfg", spec="MCDispatchScen.tla", emit=True, max_emit=1000, workers=8, coverage=False, timeout=1800)],
     },
@@ -168,7 +167,8 @@ GROUP = dict(
                   dict(cfg="MCDispatch_fault_prevce.cfg", expect=["Fifo", "Headway"]),
                   dict(cfg="MCDispatch_fault_lead.cfg", expect=["Fifo", "Headway"]),
                   dict(cfg="MCDispatch_fault_quiet.cfg", expect=["Fifo", "Headway", "OppExclusive"]),
-                  dict(cfg="MCDispatch_fault_spacing.cfg", expect=["Headway"])],
+                  dict(cfg="MCDispatch_fault_spacing.cfg", expect=["Headway"]),
+                  dict(cfg="MCDispatch_fault_exitce.cfg", expect=["AuthAgrees", "Progress", "temporal"])],
     selftest_cases=25,
     corrupt={"shift_plan_earlier": lambda ev: _shift(ev), "drop_train": lambda ev: _drop(ev),
              "break_backlink": lambda ev: _backlink(ev)},
